@@ -34,4 +34,6 @@ def load(source: AnyPath) -> Iterator[dict[str, str]]:
         header = next(fh).rstrip('\r\n')
         fields = tuple(map(str.lower, header.split('\t')))
         for line in fh:
-            yield dict(zip(fields, line.rstrip('\r\n').split('\t')))
+            values = line.rstrip('\r\n').split('\t')
+            if values[0]:  # a blank line (e.g., at the end) lists no ILI
+                yield dict(zip(fields, values))
